@@ -413,12 +413,8 @@ func c16Putters(c *Ctx) []*ssa.Function {
 		if fn.Parent() != nil {
 			continue
 		}
-		for _, b := range fn.Blocks {
-			for _, in := range b.Instrs {
-				if mu, ok := in.(*ssa.MapUpdate); ok && strings.HasSuffix(mu.Map.Type().String(), "[]"+cdbPath+".slot") {
-					out = append(out, fn)
-				}
-			}
+		if len(slotTableUpdates(fn)) > 0 {
+			out = append(out, fn)
 		}
 	}
 	seen := map[*ssa.Function]bool{}
@@ -447,14 +443,10 @@ func c16Select(c *Ctx) {
 	for _, fn := range c16Putters(c) {
 		c.Examined(fn)
 		env := &termEnv{c: c, fn: fn, hashFld: hf}
-		for _, b := range fn.Blocks {
-			for _, in := range b.Instrs {
-				mu, ok := in.(*ssa.MapUpdate)
-				if !ok {
-					continue
-				}
+		for _, mu := range slotTableUpdates(fn) {
+			{
 				t := env.of(mu.Key).String()
-				c.Check(rule, fnName(fn)+"|table-number", t == "mod(HASH,256)", mu.Pos(), "table of a record = "+t+" (want mod(HASH,256))")
+				c.Check(rule, fnName(fn)+"|table-number", t == "mod(HASH,256)", mu.Pos, "table of a record = "+t+" (want mod(HASH,256))")
 				// the registered slot carries (HASH, pos)
 				okSlot := false
 				for v := range backSlice(mu.Value, func(v ssa.Value) bool { _, isC := v.(*ssa.Call); return isC && isBuiltinCall(v, "append") == nil }) {
@@ -480,7 +472,7 @@ func c16Select(c *Ctx) {
 						}
 					}
 				}
-				c.Check(rule, fnName(fn)+"|slot-is-(hash,position)", okSlot, mu.Pos(), "the registered slot holds the key hash and the record position, in that order")
+				c.Check(rule, fnName(fn)+"|slot-is-(hash,position)", okSlot, mu.Pos, "the registered slot holds the key hash and the record position, in that order")
 			}
 		}
 	}
@@ -494,8 +486,10 @@ func c16Select(c *Ctx) {
 		var nslots ssa.Value
 		for _, b := range fn.Blocks {
 			for _, in := range b.Instrs {
-				if lk, ok := in.(*ssa.Lookup); ok && strings.HasSuffix(lk.X.Type().String(), "[]"+cdbPath+".slot") {
-					loopKey = lk.Index
+				if v, isV := in.(ssa.Value); isV {
+					if idx, _, ok := slotTableRead(v); ok {
+						loopKey = idx
+					}
 				}
 			}
 		}
@@ -1195,21 +1189,15 @@ func c16Order(c *Ctx) {
 	c.Rule(rule, "insertion order: a record's slot is appended to the list of its own table (append(m[t], slot) stored back to m[t]); the table builder walks that list forwards; the probing direction is the same (+1) on both sides (C16.probe)")
 	for _, fn := range c16Putters(c) {
 		c.Examined(fn)
-		for _, b := range fn.Blocks {
-			for _, in := range b.Instrs {
-				mu, ok := in.(*ssa.MapUpdate)
-				if !ok {
-					continue
+		for _, mu := range slotTableUpdates(fn) {
+			app := isBuiltinCall(mu.Value, "append")
+			ok2 := false
+			if app != nil {
+				if idx, tab, isRead := slotTableRead(app.Call.Args[0]); isRead && sameValue(idx, mu.Key) && sameValue(tab, mu.Table) {
+					ok2 = true
 				}
-				app := isBuiltinCall(mu.Value, "append")
-				ok2 := false
-				if app != nil {
-					if lk, isL := app.Call.Args[0].(*ssa.Lookup); isL && sameValue(lk.Index, mu.Key) && sameValue(lk.X, mu.Map) {
-						ok2 = true
-					}
-				}
-				c.Check(rule, fnName(fn)+"|append-to-own-table", ok2, mu.Pos(), "m[t] = append(m[t], slot): later records come later in the list")
 			}
+			c.Check(rule, fnName(fn)+"|append-to-own-table", ok2, mu.Pos, "m[t] = append(m[t], slot): later records come later in the list")
 		}
 	}
 	for _, fn := range c16Writers(c) {
@@ -1621,4 +1609,63 @@ func c16WriteCopies(c *Ctx) {
 		c.Check(rule, fnName(fn)+"|does-not-retain-p", len(bad) == 0, fn.Pos(), fmt.Sprintf("fields that keep the caller's slice: %v", bad))
 	}
 	c.Floor(rule, 1)
+}
+
+// The per-table slot lists live in a map[uint32][]slot on the pinned tree; a fixed array [256][]slot is the same
+// thing. slotTableUpdate / slotTableRead abstract "tables[t] = v" and "tables[t]" over both.
+type slotTableUpdate struct {
+	Key, Value, Table ssa.Value
+	Pos               token.Pos
+}
+
+func isSlotTableType(t types.Type) bool {
+	switch u := t.Underlying().(type) {
+	case *types.Map:
+		return strings.HasSuffix(u.Elem().String(), "[]"+cdbPath+".slot")
+	case *types.Array:
+		return strings.HasSuffix(u.Elem().String(), "[]"+cdbPath+".slot")
+	case *types.Pointer:
+		if a, ok := u.Elem().Underlying().(*types.Array); ok {
+			return strings.HasSuffix(a.Elem().String(), "[]"+cdbPath+".slot")
+		}
+	}
+	return false
+}
+
+func slotTableUpdates(fn *ssa.Function) []slotTableUpdate {
+	var out []slotTableUpdate
+	for _, b := range fn.Blocks {
+		for _, in := range b.Instrs {
+			switch x := in.(type) {
+			case *ssa.MapUpdate:
+				if isSlotTableType(x.Map.Type()) {
+					out = append(out, slotTableUpdate{x.Key, x.Value, x.Map, x.Pos()})
+				}
+			case *ssa.Store:
+				if ia, ok := x.Addr.(*ssa.IndexAddr); ok && isSlotTableType(ia.X.Type()) {
+					out = append(out, slotTableUpdate{ia.Index, x.Val, ia.X, x.Pos()})
+				}
+			}
+		}
+	}
+	return out
+}
+
+// slotTableRead: v reads tables[i]; returns the index and the table.
+func slotTableRead(v ssa.Value) (idx, table ssa.Value, ok bool) {
+	switch x := v.(type) {
+	case *ssa.Lookup:
+		if isSlotTableType(x.X.Type()) {
+			return x.Index, x.X, true
+		}
+	case *ssa.UnOp:
+		if ia, isIA := x.X.(*ssa.IndexAddr); isIA && x.Op == token.MUL && isSlotTableType(ia.X.Type()) {
+			return ia.Index, ia.X, true
+		}
+	case *ssa.Index:
+		if isSlotTableType(x.X.Type()) {
+			return x.Index, x.X, true
+		}
+	}
+	return nil, nil, false
 }
